@@ -4,10 +4,12 @@ C11 driver: parses the case lines that the harness executes against the real dri
 
 Case lines (shared with harness/c11):
   script o<k> hb:<i>|hb:* <op>;<op>;...     what the i-th (0-based) / every other heart_beat of o<k> does
+  script o<k> md <op>;...                   what move_or_destruct() of o<k> does when its carrier is destructed
+                                            (only shb / q / clone / flag / hbs are executed there)
   do o<k> <op>                              top-level operation executed by o<k>
   tick                                      one timer tick (the real call_heart_beat)
 op syntax (comma separated):
-  shb,o<t>,<n> | q,o<t> | dest,o<t> | clone,o<new>,<kind>,<n> | err | flag | hbs
+  shb,o<t>,<n> | q,o<t> | dest,o<t> | clone,o<new>,<kind>,<n> | err | flag | hbs | take,o<item>
 o0 = blueprint /c11/obj (has heart_beat), o1 = blueprint /c11/nohb (no heart_beat function); both always loaded.
 -/
 import NV.Common.Proto
@@ -31,6 +33,7 @@ def parseOp (s : String) : Option Op :=
   | ["err"] => some .err
   | ["flag"] => some .flag
   | ["hbs"] => some .hbs
+  | ["take", i] => do some (.take (← parseOid i))
   | _ => none
 
 def oid (o : Nat) : String := s!"o{o}"
@@ -49,6 +52,12 @@ def render : Ev → String
   | .destNone s t => s!"r dest {oid s} {oid t} !none"
   | .clone s n k i q => s!"r clone {oid s} {oid n} {k} {i} {q}"
   | .cloneDup s n => s!"r clone {oid s} {oid n} !dup"
+  | .into i c => s!"r take {oid c} {oid i}"
+  | .intoNone i c => s!"r take {oid c} {oid i} !none"
+  | .hook i c => s!"hook {oid i} {oid c}"
+  | .hookEnd i => s!"hookend {oid i}"
+  | .hookGone i => s!"hookend {oid i} !gone"
+  | .destGone s t => s!"r dest {oid s} {oid t} !gone"
   | .err o => s!"err *boom {oid o}"
   | .topErr o => s!"r {oid o} do_op !err"
   | .topDead o => s!"r {oid o} do_op !destructed"
@@ -78,6 +87,12 @@ def parseEv (line : String) : Ev :=
     | ["r", "q", s, t, q] => do some (.query (← parseOid s) (← parseOid t) (← q.toInt?))
     | ["r", "dest", s, t] => do some (.dest (← parseOid s) (← parseOid t))
     | ["r", "dest", s, t, "!none"] => do some (.destNone (← parseOid s) (← parseOid t))
+    | ["r", "dest", s, t, "!gone"] => do some (.destGone (← parseOid s) (← parseOid t))
+    | ["r", "take", c, i] => do some (.into (← parseOid i) (← parseOid c))
+    | ["r", "take", c, i, "!none"] => do some (.intoNone (← parseOid i) (← parseOid c))
+    | ["hook", i, c] => do some (.hook (← parseOid i) (← parseOid c))
+    | ["hookend", i] => do some (.hookEnd (← parseOid i))
+    | ["hookend", i, "!gone"] => do some (.hookGone (← parseOid i))
     | ["r", "clone", s, n, "!dup"] => do some (.cloneDup (← parseOid s) (← parseOid n))
     | ["r", "clone", s, n, k, i, q] =>
       do some (.clone (← parseOid s) (← parseOid n) (← k.toNat?) (← i.toInt?) (← q.toInt?))
@@ -97,6 +112,7 @@ def parseEv (line : String) : Ev :=
 
 structure Parsed where
   scripts : List ((Nat × Option Nat) × List Op) := []
+  hooks : List (Nat × List Op) := []
   cmds : List Cmd := []
   bad : List String := []
 
@@ -109,6 +125,9 @@ def parseLine (p : Parsed) (line : String) : Parsed :=
       else if key.startsWith "hb:" then (key.drop 3).toString.toNat?.map some else none
     let parsed := (ops.splitOn ";").map parseOp
     match parseOid o, k with
+    | some o, none =>
+      if key == "md" && parsed.all Option.isSome then { p with hooks := (o, parsed.filterMap id) :: p.hooks }
+      else { p with bad := line :: p.bad }
     | some o, some k =>
       if parsed.all Option.isSome then { p with scripts := ((o, k), parsed.filterMap id) :: p.scripts }
       else { p with bad := line :: p.bad }
@@ -133,10 +152,16 @@ def scriptsOf (p : Parsed) : Scripts := fun o k =>
     | some e => e.2
     | none => []
 
+/-- move_or_destruct() scripts (`script o<k> md <ops>`); the last line for an object wins -/
+def hooksOf (p : Parsed) : Nat → List Op := fun o =>
+  match p.hooks.find? (fun e => e.1 == o) with
+  | some e => e.2
+  | none => []
+
 def runModel (lines : List String) : List String :=
   let p := parseCase lines
   if !p.bad.isEmpty then p.bad.map (fun l => s!"bad-line {l}")
-  else (events (scriptsOf p) p.cmds).map render
+  else (events (scriptsOf p) p.cmds (hooksOf p)).map render
 
 def runJudge (body : List String) : List String :=
   let (_input, impl) := splitJudge body
@@ -147,7 +172,7 @@ def runJudge (body : List String) : List String :=
 /-- `branches` mode: one line per branch tag taken by the case -/
 def runBranches (lines : List String) : List String :=
   let p := parseCase lines
-  if !p.bad.isEmpty then [] else branchTags (scriptsOf p) p.cmds
+  if !p.bad.isEmpty then [] else branchTags (scriptsOf p) p.cmds (hooksOf p)
 
 def main (mode : String) : IO Unit :=
   match mode with
